@@ -381,7 +381,7 @@ def main():
 
     def undecided(reason, cov=None):
         # the verifier cannot decide this tree; a concrete failing input on the real crate still settles it
-        fi = None if reason.startswith(('replay-crate', 'no-check')) else find_failing_input(pid)
+        fi = None if reason.startswith(('replay-crate', 'no-check')) else (meas_fail or find_failing_input(pid))
         if fi:
             os.makedirs(REPLAYS, exist_ok=True)
             rpath = os.path.join(REPLAYS, '%s-probe-%s.json' % (pid, fi['probe']))
@@ -405,6 +405,7 @@ def main():
 
     # 0. bounded measurements on the real crate: a crash / hang on a concrete input is a violation whatever the verifier says
     measurements = []
+    meas_fail = None
     meas = getattr(obligations, 'MEASUREMENTS', {}).get(pid, [])
     if meas:
         rb = replay_bin()
@@ -418,6 +419,11 @@ def main():
             except subprocess.TimeoutExpired:
                 rc, out = -9, 'TIMEOUT (hang)'
             measurements.append({'cmd': 'coset-replay ' + sub, 'rc': rc, 'label': 'bounded stand-in on the real crate, not counted as proved', 'output': out[-1500:]})
+            if rc != 0 and sub.startswith('probe '):
+                # an always-on probe disagrees: remember the failing input, and still ask the verifier which obligations fail
+                fl = [l for l in out.splitlines() if 'FAILING-INPUT' in l or 'panicked' in l]
+                meas_fail = {'probe': sub.split()[1], 'output': '\n'.join(fl[:5]) or out[-800:], 'replay_cmd': 'PROBE_PROPERTY=%s %s %s' % (pid, rb, sub)}
+                continue
             if rc != 0:
                 os.makedirs(REPLAYS, exist_ok=True)
                 rpath = os.path.join(REPLAYS, '%s-%s.json' % (pid, sub.replace(' ', '-')))
@@ -650,7 +656,7 @@ def main():
                 cex = {'harness': n[5:], 'kani_concrete_playback': runkani.counterexample(n[5:])}
                 break
         if cex is None:
-            fi = find_failing_input(pid)
+            fi = meas_fail or find_failing_input(pid)
             if fi:
                 cex = fi
                 print('FAILING-INPUT property=%s %s' % (pid, fi['output'].splitlines()[0][:300] if fi['output'] else ''))
@@ -687,6 +693,17 @@ def main():
                 write_evidence(pid, a.tier, seed, t0, cov, ASSUMPTIONS_COMMON, 1)
                 print('VIOLATION property=%s replay=%s' % (pid, rpath))
                 return 1
+    if meas_fail:
+        # every obligation was discharged, yet the always-on bounded probe found a disagreement on the real crate
+        os.makedirs(REPLAYS, exist_ok=True)
+        rpath = os.path.join(REPLAYS, '%s-probe-%s.json' % (pid, meas_fail['probe']))
+        json.dump({'property': pid, 'failed_obligations': ['probe:' + meas_fail['probe']], 'backend': 'native execution of the real crate vs reference implementation (always-on bounded probe)',
+                   'verifier_output': 'all verifier obligations of the property were discharged', 'input': meas_fail, 'replay_cmd': meas_fail['replay_cmd']}, open(rpath, 'w'), indent=1)
+        cov['bounded_measurements'] = measurements
+        write_evidence(pid, a.tier, seed, t0, cov, ASSUMPTIONS_COMMON, 1)
+        print('FAILING-INPUT property=%s %s' % (pid, meas_fail['output'].splitlines()[0][:300] if meas_fail['output'] else ''))
+        print('VIOLATION property=%s replay=%s' % (pid, rpath))
+        return 1
     kf = known_findings(pid)
     if kf:
         rb = replay_bin()
